@@ -133,7 +133,7 @@ impl Disk {
     fn open_bitmap_buffer(&mut self) -> STDRESULT {
         if self.maybe_bitmap==None {
             self.bitmap_blocks = Vec::new();
-            let bitmap_block_count = 1 + self.total_blocks / 4096;
+            let bitmap_block_count = (self.total_blocks + 4095) / 4096;
             let mut ans = Vec::new();
             let bptr = u16::from_le_bytes(self.get_vol_header()?.bitmap_ptr) as usize;
             for iblock in bptr..bptr+bitmap_block_count {
@@ -163,7 +163,7 @@ impl Disk {
         };
         if self.bitmap_blocks.len()>0 {
             let first = self.bitmap_blocks[0];
-            let bitmap_block_count = 1 + self.total_blocks / 4096;
+            let bitmap_block_count = (self.total_blocks + 4095) / 4096;
             for iblock in first..first+bitmap_block_count {
                 self.zap_block(&buf,iblock,(iblock-first)*512)?;
             }    
@@ -269,7 +269,7 @@ impl Disk {
         }
         // calculate volume parameters and setup volume directory
         let mut volume_dir = KeyBlock::<VolDirHeader>::new();
-        let bitmap_blocks = 1 + self.total_blocks / 4096;
+        let bitmap_blocks = (self.total_blocks + 4095) / 4096;
         volume_dir.set_links(Some(0), Some(VOL_KEY_BLOCK+1));
         volume_dir.header.format(self.total_blocks as u16,vol_name,time);
         let first = u16::from_le_bytes(volume_dir.header.bitmap_ptr) as usize;
